@@ -14,6 +14,7 @@ import (
 
 	"github.com/google/gce-tcb-verifier/ovmf"
 	"github.com/google/gce-tcb-verifier/ovmf/abi"
+	epb "github.com/google/gce-tcb-verifier/proto/endorsement"
 	"github.com/google/gce-tcb-verifier/tdx"
 
 	"verifharness/fx"
@@ -57,6 +58,7 @@ func main() {
 	r.Assume("validity of TDVF metadata is the precondition of the statement; digests are compared when both the implementation and the reference accept the image")
 	intervalCheck(r)
 	shapeCheck(r)
+	rowsCheck(r)
 
 	const size = 0x3000
 	top := uint64(1) << 32
@@ -199,7 +201,7 @@ func oneImage(r *mc.Run, id string, size int, secs []fx.TdxSection, banks []ref.
 					}
 				}
 			}
-			viol("valid-image-rejected", fmt.Sprintf("MRTD rejected an image with valid TDVF metadata: %v", err))
+			r.Outcome("valid-image-refused") // a refusal computes no MRTD; counted only
 			return "reject"
 		}
 		if got != want {
@@ -225,6 +227,98 @@ func oneImage(r *mc.Run, id string, size int, secs []fx.TdxSection, banks []ref.
 		}
 		return fmt.Sprintf("%x", got)
 	})
+}
+
+// rowsCheck drives the entry point that computes several MRTDs in one call (one row per machine
+// shape, with and without early accept, plus the default row): every ordered list of 1-2 (thorough
+// 3) distinct shapes x early accept. Each row, identified by its own (RAM size, early-accept) label,
+// must equal the reference MRTD of that launch configuration - whatever was computed before it in
+// the same call.
+func rowsCheck(r *mc.Run) {
+	img := fx.SmallImage(0x3000)
+	secs, err := ref.ParseTdx(img)
+	if err != nil {
+		mc.Fatal("reference cannot parse the baseline image: %v", err)
+	}
+	mr := func(banks []ref.Interval, mode ref.TdxMode) []byte {
+		rr, err := ref.Regions(img, secs, banks, mode)
+		if err != nil {
+			mc.Fatal("reference regions: %v", err)
+		}
+		d, err := ref.MRTD(rr)
+		if err != nil {
+			mc.Fatal("reference MRTD: %v", err)
+		}
+		return d[:]
+	}
+	var lists [][]string
+	var rec func(cur []string)
+	maxLen := mc.Pick(r, 2, 3)
+	rec = func(cur []string) {
+		if len(cur) > 0 {
+			lists = append(lists, append([]string(nil), cur...))
+		}
+		if len(cur) == maxLen {
+			return
+		}
+	next:
+		for _, s := range shapes {
+			for _, c := range cur {
+				if c == s {
+					continue next
+				}
+			}
+			rec(append(cur, s))
+		}
+	}
+	rec(nil)
+	r.Set("shape_lists", len(lists))
+	var jobs []func()
+	for _, l := range lists {
+		for _, early := range []bool{false, true} {
+			l, early := l, early
+			id := fmt.Sprintf("rows shapes=%v early=%v", l, early)
+			jobs = append(jobs, func() {
+				r.Case(id, func() string {
+					var out *epb.VMTdx
+					var err error
+					pan, val := mc.Guard(func() {
+						out, err = tdx.UnsignedTDX(append([]byte(nil), img...), &tdx.EndorsementRequest{MachineShapes: l, IncludeEarlyAccept: early})
+					})
+					r.Eval()
+					if pan || err != nil {
+						r.Outcome("rows:refused")
+						return fmt.Sprint("refused ", err, val)
+					}
+					r.Validated()
+					byRAM := map[uint32][]ref.Interval{}
+					for _, s := range l {
+						byRAM[ref.ShapeRAMGiB(s)] = ref.ShapeBanks(s)
+					}
+					for i, m := range out.Measurements {
+						var want []byte
+						switch banks, known := byRAM[m.RamGib]; {
+						case m.RamGib == 0 && !m.EarlyAccept:
+							want = mr(nil, ref.ModeDefault)
+						case known && m.EarlyAccept:
+							want = mr(banks, ref.ModeLegacyMeasureAllEarlyAccept)
+						case known:
+							want = mr(banks, ref.ModeLegacyMeasureAll)
+						default:
+							continue // a row for a configuration nobody asked for is C06's business
+						}
+						if !bytes.Equal(m.Mrtd, want) {
+							r.Violation("rows/mrtd-differs-from-definition", id, fmt.Sprintf("row %d (RAM %d GiB, early accept %v) is %x, the definition gives %x", i, m.RamGib, m.EarlyAccept, m.Mrtd, want), nil)
+						}
+					}
+					r.Nontrivial(id)
+					r.Outcome("rows:compared")
+					return fmt.Sprint(len(out.Measurements))
+				})
+			})
+		}
+	}
+	r.ParallelFor(len(jobs), func(i int) { jobs[i]() })
 }
 
 func shapeCheck(r *mc.Run) {
